@@ -159,8 +159,8 @@ def stepEv (d : RS) (toks : Toks) (impl : String) : Option (RS × String) := do
   | _ => none
 
 def stepFrame (d : RS) (rest : Toks) (impl : String) : Option (RS × String) := do
-  let (t1, rest) ← pTreeKw "T" rest
-  let (t2, rest) ← pTreeKw "T" rest
+  let (t1, rest) ← pHoverTree "T" rest
+  let (t2, rest) ← pHoverTree "T" rest
   let (script, fails, _) ← pScriptE rest
   let eo := mkEOracle d.caps script fails
   let (m0, merr) := eRunFrame eo fuelDefault (fresh d.model) t1 t2
@@ -198,7 +198,7 @@ def stepInit (rest : Toks) (impl : String) : Option (RS × String) := do
   let (ncap, rest) ← pNat rest
   let caps := (rest.take ncap).filterMap (·.toNat?)
   let rest := rest.drop (ncap + 1)
-  let (t, rest) ← pTreeKw "T" rest
+  let (t, rest) ← pHoverTree "T" rest
   let (script, fails, _) ← pScriptE rest
   let eo := mkEOracle caps script fails
   let o := eo.o
